@@ -82,7 +82,7 @@ type storeInternal interface {
 	newEntitySymbol(name string, nodeType ast.NodeType, key string, linkedType Store, prefix ...string) *entitySymbol
 
 	getLinks() map[string]LinkCollection
-	inheritMapSymbol(symbol *entityMapSymbol)
+	inheritMapSymbol(name string, symbol *entityMapSymbol)
 	processDeleteConstraints(ctx MutateContext, id string) (entityChangeFlow, error)
 	newIndexingContext(isCreate bool, ctx MutateContext, id string, holder errorz.ErrorHolder) *IndexingContext
 	newEntityChangeFlow() entityChangeFlow
